@@ -898,6 +898,57 @@ theorem all2_map_right {α β : Type} {R : α → β → Prop} {f : α → β} (
 theorem remapDev_sim {s : St} (hK : K s) (d : List DevCfg) : DevSim s.w d (remapDev s.vm d) :=
   all2_map_right (fun c => ⟨rfl, all2_map_right (fun sp => remapSpec_sim hK sp) c.specs⟩) d
 
+/-- every pair of a remapping relates a value to itself or to an equally observed value -/
+def PairsSim (w : World) (m : List (Nat × Nat)) : Prop := ∀ p ∈ m, p.2 = p.1 ∨ ValSim w p.1 p.2
+
+theorem remapSpec_simP {w : World} {m : List (Nat × Nat)} (h : PairsSim w m) (sp : DevSpec) :
+    SpecSim w sp (remapSpec m sp) := by
+  unfold remapSpec
+  split
+  · exact ⟨rfl, .inl rfl⟩
+  · next v hv =>
+    split
+    · exact ⟨rfl, .inl rfl⟩
+    · next v' hv' =>
+      rcases h (v, v') (mem_of_lookup hv') with h1 | h1
+      · simp only at h1; subst h1; exact ⟨rfl, .inl hv.symm⟩
+      · exact ⟨rfl, .inr ⟨v, v', hv, rfl, h1⟩⟩
+
+theorem remapDev_simP {w : World} {m : List (Nat × Nat)} (h : PairsSim w m) (d : List DevCfg) :
+    DevSim w d (remapDev m d) :=
+  all2_map_right (fun c => ⟨rfl, all2_map_right (fun sp => remapSpec_simP h sp) c.specs⟩) d
+
+theorem all2_zip {α β : Type} {R : α → β → Prop} : ∀ {l : List α} {l' : List β}, All2 R l l' →
+    ∀ p ∈ l.zip l', R p.1 p.2
+  | _, _, .nil, p, hp => by simp at hp
+  | _, _, .cons h t, p, hp => by
+    rw [List.zip_cons_cons] at hp
+    rcases List.mem_cons.mp hp with h1 | h1
+    · subst h1; exact h
+    · exact all2_zip t p h1
+
+theorem ioMap_pairs {w : World} {ins newIns : List (Option Nat)} {outs newOuts : List Nat}
+    (hins : All2 (RefSim w) ins newIns) (houts : All2 (ValSim w) outs newOuts) :
+    PairsSim w (ioMap ins newIns outs newOuts) := by
+  intro p hp
+  unfold ioMap at hp
+  rcases List.mem_append.mp hp with h1 | h1
+  · exact .inr (all2_zip houts p h1)
+  · obtain ⟨q, hq, hqp⟩ := List.mem_filterMap.mp h1
+    have hr := all2_zip hins q hq
+    rcases q with ⟨qa, qb⟩
+    cases qa with
+    | none => simp at hqp
+    | some a =>
+      cases qb with
+      | none => simp at hqp
+      | some b =>
+        simp at hqp
+        subst hqp
+        rcases hr with h2 | ⟨v, v', e1, e2, h2⟩
+        · simp at h2; exact .inl h2
+        · simp at e1 e2; subst e1 e2; exact .inr h2
+
 theorem allocNode_sim {s : St} (c : NodeS) (hK : K s) :
     SGoodAt (allocNode c) s (fun r s1 => coreAt s1.w r = some (Cell.node c).core) := by
   unfold allocNode
@@ -919,23 +970,22 @@ theorem cloneNode_sim {allow : Bool} {rec : Nat → M Nat}
   sbind (copyProps_sim ns.props hK3) with pr s4 hK4 hl4 hpr
   sbind (copyMeta_sim ns.mstore hK4) with me s5 hK5 hl5 hme
   sbind (cloneOutputs_sim ns.outputs 0 s5 hK5) with outs s6 hK6 hl6 houts
-  sbind (SGoodAt.getVm hK6) with vm s7 hK7 hl7 hq7
-  obtain ⟨rfl, rfl⟩ := hq7
-  sbind (allocNode_sim _ hK7) with n' s8 hK8 hl8 hn'
+  sbind (allocNode_sim _ hK6) with n' s8 hK8 hl8 hn'
   sbind (forM'_sim outs s8 hK8 (fun v _ s9 hK9 => setProducer_sim n' v hK9)) with u s9 hK9 hl9 hq9
   sbind (addUses_sim n' ins 0 s9 hK9) with u2 s10 hK10 hl10 hq10
   have l2 : CoreLe s2.w s10.w := hl3.trans (hl4.trans (hl5.trans (hl6.trans (hl8.trans (hl9.trans hl10)))))
   have l3 : CoreLe s3.w s10.w := hl4.trans (hl5.trans (hl6.trans (hl8.trans (hl9.trans hl10))))
   have l4 : CoreLe s4.w s10.w := hl5.trans (hl6.trans (hl8.trans (hl9.trans hl10)))
   have l5 : CoreLe s5.w s10.w := hl6.trans (hl8.trans (hl9.trans hl10))
-  have l7 : CoreLe s7.w s10.w := hl8.trans (hl9.trans hl10)
+  have l7 : CoreLe s6.w s10.w := hl8.trans (hl9.trans hl10)
   have l8 : CoreLe s8.w s10.w := hl9.trans hl10
   have hattrs' : All2 (AttrSim s10.w) ns.attrs attrs :=
     All2.mono (R := fun (ka : String × Nat) r => AttrSim s3.w ka r) (fun _ _ h => AttrSim.mono l3 h) hattrs
   refine SGoodAt.pure hK10 (NodeSim.mk n n' _ _ attrs (cNode_mono l2 (cNode_of hns))
     (cNode_mono l8 (cNode_ofCore hn')) rfl rfl rfl rfl rfl rfl
     (All2.mono (fun _ _ h => RefSim.mono l2 h) hins) (All2.mono (fun _ _ h => ValSim.mono l7 h) houts)
-    (attrsSim_of_all2 hattrs') rfl ?_ ?_ ((remapDev_sim hK7 ns.dev).mono l7))
+    (attrsSim_of_all2 hattrs') rfl ?_ ?_ (remapDev_simP (ioMap_pairs
+      (All2.mono (fun _ _ h => RefSim.mono l2 h) hins) (All2.mono (fun _ _ h => ValSim.mono l7 h) houts)) ns.dev))
   · obtain ⟨d, a, b⟩ := hpr
     exact ⟨d, _, cDict_mono l4 a, cDict_mono l4 b, rfl⟩
   · obtain ⟨d, a, b⟩ := hme
